@@ -1,9 +1,12 @@
 #!/bin/bash
-# Regression loop over every stored seeded change: applies each patch, runs the
-# check(s) of its property (quick tier), reports caught/missed, restores /repo.
+# Regression loop over every stored seeded change: each patch is applied to a
+# scratch worktree and the check(s) of its property (quick tier; other ids when
+# meta.json names them in verif_check_ids) are run from a scratch copy of
+# /verif. Reports caught/missed. usage: tools/seedall.sh [parallelism] [name filter]
 cd "$(dirname "$0")/.."
-for d in seeded/*/; do
-  n=$(basename "$d"); id=${n%%-*}
-  out=$(tools/seedtest.sh "$n" "$id" 2>&1)
-  if echo "$out" | grep -q "^VIOLATION"; then echo "$n caught"; else echo "$n MISSED"; echo "$out" | tail -3; fi
-done
+P=${1:-4}; F=${2:-}
+ls seeded | grep -e "$F" | xargs -P "$P" -I{} bash -c '
+  n={}; id=${n%%-*}
+  ids=$(python3 -c "import json,sys; m=json.load(open(\"seeded/$n/meta.json\")); print(\" \".join(m.get(\"verif_check_ids\") or [\"$id\"]))")
+  out=$(tools/seedtest.sh "$n" $ids 2>&1)
+  if echo "$out" | grep -q "^VIOLATION"; then echo "$n caught"; else echo "$n MISSED"; echo "$out" | tail -3; fi'
